@@ -1618,6 +1618,8 @@ func (d *decoderBincBytes) kInterfaceNaked(f *decFnInfo) (rvn reflect.Value) {
 			} else {
 				rvn = reflect.New(bfn.rt)
 				if bfn.ext == SelfExt {
+
+					bytes = d.sideDecodeInput(bytes, d.attachState(!d.bytes))
 					sideDecode(d.hh, &d.h.sideDecPool, func(sd decoderI) { oneOffDecode(sd, rv2i(rvn), bytes, bfn.rt, true) })
 				} else {
 					bfn.ext.ReadExt(rv2i(rvn), bytes)
@@ -3810,11 +3812,12 @@ func (d *bincDecDriverBytes) DecodeBytes() (bs []byte, state dBytesAttachState) 
 }
 
 func (d *bincDecDriverBytes) DecodeExt(rv interface{}, basetype reflect.Type, xtag uint64, ext Ext) {
-	xbs, _, _, ok := d.decodeExtV(ext != nil, xtag)
+	xbs, _, state, ok := d.decodeExtV(ext != nil, xtag)
 	if !ok {
 		return
 	}
 	if ext == SelfExt {
+		xbs = d.d.sideDecodeInput(xbs, state)
 		sideDecode(d.h, &d.h.sideDecPool, func(sd decoderI) { oneOffDecode(sd, rv, xbs, basetype, true) })
 	} else {
 		ext.ReadExt(rv, xbs)
@@ -5716,6 +5719,8 @@ func (d *decoderBincIO) kInterfaceNaked(f *decFnInfo) (rvn reflect.Value) {
 			} else {
 				rvn = reflect.New(bfn.rt)
 				if bfn.ext == SelfExt {
+
+					bytes = d.sideDecodeInput(bytes, d.attachState(!d.bytes))
 					sideDecode(d.hh, &d.h.sideDecPool, func(sd decoderI) { oneOffDecode(sd, rv2i(rvn), bytes, bfn.rt, true) })
 				} else {
 					bfn.ext.ReadExt(rv2i(rvn), bytes)
@@ -7908,11 +7913,12 @@ func (d *bincDecDriverIO) DecodeBytes() (bs []byte, state dBytesAttachState) {
 }
 
 func (d *bincDecDriverIO) DecodeExt(rv interface{}, basetype reflect.Type, xtag uint64, ext Ext) {
-	xbs, _, _, ok := d.decodeExtV(ext != nil, xtag)
+	xbs, _, state, ok := d.decodeExtV(ext != nil, xtag)
 	if !ok {
 		return
 	}
 	if ext == SelfExt {
+		xbs = d.d.sideDecodeInput(xbs, state)
 		sideDecode(d.h, &d.h.sideDecPool, func(sd decoderI) { oneOffDecode(sd, rv, xbs, basetype, true) })
 	} else {
 		ext.ReadExt(rv, xbs)
